@@ -49,6 +49,23 @@ CHECKS = {
                   'checked for well-formedness by the merge engine.'),
 }
 
+CHECKS.update({
+ 'C02': dict(engine='merge', ref='6/C02', technique='TLA+ definition of RFC 7396 MP model-checked by TLC (idempotence, wholesale replacement); every '
+             '(document, patch) pair of the bounded universe replayed into the real MergePatch',
+             text='Exhaustive over ~3*10^5 (document, patch) pairs of a bounded universe (all root types, nulls inside arrays and new objects, type '
+                  'changes through three levels), two spellings each; structural comparison with the specification result, verbatim check for '
+                  'literal patches, arrays unedited.'),
+ 'C03': dict(engine='merge', ref='6/C03', technique='TLA+ Diff/IsMinimalPatch/round-trip laws model-checked by TLC; every (A, B) pair replayed into the '
+             'real CreateMergePatch and MergePatch',
+             text='Exhaustive over ~3*10^5 pairs: rejection table over root kinds, minimal patch compared structurally with B\'s literals (23-digit '
+                  'integers, 1 vs 1.0), round trip through the real MergePatch whenever B has no null member.'),
+ 'C07': dict(engine='merge', ref='6/C07', technique='TLC invariant ComposeLaw on Merge7396 (Compose, Compatible); triples replayed into the real '
+             'MergeMergePatches + MergePatch',
+             text='TLC checks the composition law on the specification for every compatible pair of the universe and every document; the real '
+                  'combined patch is applied to the document with the real MergePatch and compared with the sequential result, and compared '
+                  'with the specification\'s composition (unique up to member order).'),
+})
+
 NA = {}
 
 
@@ -80,6 +97,8 @@ def main():
                   'baseline_off_cmd': 'cd /repo/v5 && GOFLAGS=-mod=mod go test -vet=off -count=1 -timeout 25m ./...',
                   'source_commits': [c for c in commits if c], 'add_only': True},
         'engines': [
+            {'name': 'merge', 'path': 'spec/Merge7396.tla spec/MCMerge.tla harness/cmd/replay', 'serves_properties': ['C02', 'C03', 'C05', 'C07'],
+             'kind_free_text': 'TLA+ definitions of RFC 7396 apply/create/compose with their laws, universe enumerated by TLC and replayed'},
             {'name': 'patch', 'path': 'spec/Patch6902.tla spec/MCPatch.tla harness/cmd/replay', 'serves_properties':
                 ['C01', 'C05', 'C08', 'C12', 'C13', 'C14', 'C15'],
              'kind_free_text': 'TLA+ reference machine for RFC 6902 application, TLC-enumerated, transitions replayed into the library'},
